@@ -1,4 +1,5 @@
 import RawPanelVerif.Lemmas.StripLemmas
+import RawPanelVerif.Lemmas.StripContent
 import RawPanelVerif.Spec.StripSpec
 /-!
 # C07 — Every produced ASCII string is exactly one line and flattening loses no content
@@ -14,9 +15,20 @@ import RawPanelVerif.Spec.StripSpec
   (stated with the Spec's own splitter, for any number of strings).
 * `svgPinned_loses_content_counterexample` — the pinned tree's SVG flattening dropped `<path d="M0 0`.
 
-NOT YET PROVED (validated by the correspondence only): that `Spec.Strip.contentEq s (stripLineBreaks s) = true`
-for all `s`, i.e. the link between the structural statement above and the executable content comparison used on the
-implementation's output (needs: the forward white-space scanner never straddles a rune boundary found by the backward trim).
+* `strip_content`, `strip_payload` — the executable content comparison of the Spec (`contentEq`, forward scan deleting
+  every Unicode white-space rune from both strings) holds between every input `s` and `stripLineBreaks s`, hence
+  `Spec.Strip.checkPayload s (stripLineBreaks s) = none`, under the decidable guard `Strip.JoinSafe s`: no line of `s`
+  after the first begins, once trimmed, with a UTF-8 continuation byte 0x80..0xBF.  `strip_content_utf8`: every valid
+  UTF-8 string (`Strip.validUtf8` = Go `utf8.ValidString`) satisfies the guard; so does every ASCII string and every
+  string without LF.
+* `contentEq_invalid_utf8_counterexample` — the guard is necessary: for `s = E2 80 0A 85 41` (not valid UTF-8) joining
+  the two lines gives `E2 80 85 41`, where `E2 80 85` is the white-space rune U+2005 although none of the three bytes
+  was white space in `s`; `contentEq` is false.  (The real `stripLineBreaks` returns exactly `E2 80 85 41` on it.)
+  `contentEq_trimmed_start_counterexample`: "no LINE begins with a continuation byte" is not enough (`C2 0A 20 85`):
+  the guard has to speak about the trimmed line.
+* `stripSvg_content`, `stripSvg_payload` — for the SVG flattening the same holds for EVERY byte string, no guard: each
+  line image ends in `>` or in the appended space, so no white-space rune can form across a line boundary (the appended
+  spaces are white space and vanish in the comparison).
 -/
 namespace RawPanelVerif.C07
 open RawPanelVerif RawPanelVerif.Bytes RawPanelVerif.Strip
@@ -147,6 +159,63 @@ theorem framing_of_singleLine (raw : List Bytes) : Spec.Strip.framing (raw.map s
     simp only [List.mem_map] at hl
     obtain ⟨r, _, rfl⟩ := hl
     exact singleLine_no_lf r)
+
+/-! ## content: the structural statements above meet the executable comparison of the Spec -/
+
+/-- **The guard is necessary.**  `s = E2 80 ⏎ 85 41` is not valid UTF-8; its two lines join to `E2 80 85 41`, whose first
+three bytes are the white-space rune U+2005, while in `s` the bytes `E2`, `80`, `85` are each kept by the scanner. -/
+theorem contentEq_invalid_utf8_counterexample :
+    stripLineBreaks [0xE2, 0x80, 0x0A, 0x85, 0x41] = [0xE2, 0x80, 0x85, 0x41] ∧
+    Spec.Strip.contentOf [0xE2, 0x80, 0x0A, 0x85, 0x41] = [0xE2, 0x80, 0x85, 0x41] ∧
+    Spec.Strip.contentOf (stripLineBreaks [0xE2, 0x80, 0x0A, 0x85, 0x41]) = [0x41] ∧
+    Spec.Strip.contentEq [0xE2, 0x80, 0x0A, 0x85, 0x41] (stripLineBreaks [0xE2, 0x80, 0x0A, 0x85, 0x41]) = false ∧
+    joinSafe [0xE2, 0x80, 0x0A, 0x85, 0x41] = false ∧ validUtf8 [0xE2, 0x80, 0x0A, 0x85, 0x41] = false := by decide
+
+/-- a guard on the untrimmed lines ("no line begins with a continuation byte") is too weak: in `C2 ⏎ 20 85` the second
+line begins with a space, the trim exposes `85`, and the join `C2 85` is the white-space rune U+0085 -/
+theorem contentEq_trimmed_start_counterexample :
+    (splitOn 10 [0xC2, 0x0A, 0x20, 0x85]).all (fun l => !startsCont l) = true ∧
+    stripLineBreaks [0xC2, 0x0A, 0x20, 0x85] = [0xC2, 0x85] ∧
+    Spec.Strip.contentEq [0xC2, 0x0A, 0x20, 0x85] (stripLineBreaks [0xC2, 0x0A, 0x20, 0x85]) = false := by decide
+
+/-- **Flattening loses no content** (JSON / message text): under the guard `JoinSafe s` — in particular for every valid
+UTF-8 `s` — the Spec's executable comparison holds between `s` and `stripLineBreaks s`. -/
+theorem strip_content (s : Bytes) (h : JoinSafe s) : Spec.Strip.contentEq s (stripLineBreaks s) = true := by
+  unfold Spec.Strip.contentEq
+  rw [contentOf_strip s h]
+  exact beq_self_eq_true _
+
+theorem strip_content_utf8 (s : Bytes) (h : validUtf8 s = true) : Spec.Strip.contentEq s (stripLineBreaks s) = true :=
+  strip_content s (joinSafe_of_validUtf8 s h)
+
+/-- **The SVG flattening loses no content, for every byte string** (the appended spaces are white space). -/
+theorem stripSvg_content (s : Bytes) : Spec.Strip.contentEq s (stripLineBreaksSvg s) = true := by
+  unfold Spec.Strip.contentEq
+  rw [contentOf_stripSvg s]
+  exact beq_self_eq_true _
+
+theorem oneLine_of_no_lf (o : Bytes) (h : (10 : UInt8) ∉ o) : Spec.Strip.oneLine o = true := by
+  unfold Spec.Strip.oneLine
+  simp [h]
+
+/-- the payload check the driver evaluates on `strip.json` records: one line, content kept -/
+theorem strip_payload (s : Bytes) (h : JoinSafe s) : Spec.Strip.checkPayload s (stripLineBreaks s) = none := by
+  unfold Spec.Strip.checkPayload
+  simp [oneLine_of_no_lf _ (strip_no_lf s), strip_content s h]
+
+/-- the payload check the driver evaluates on `strip.svg` records, for every input -/
+theorem stripSvg_payload (s : Bytes) : Spec.Strip.checkPayload s (stripLineBreaksSvg s) = none := by
+  unfold Spec.Strip.checkPayload
+  simp [oneLine_of_no_lf _ (stripSvg_no_lf s), stripSvg_content s]
+
+/-- `é NBSP ⏎ EM-SPACE x IDEOGRAPHIC-SPACE ⏎ SP €` -/
+def exUtf8 : Bytes := [0xC3, 0xA9, 0xC2, 0xA0, 0x0A, 0xE2, 0x80, 0x83, 0x78, 0xE3, 0x80, 0x80, 0x0A, 0x20, 0xE2, 0x82, 0xAC]
+
+/-- non-vacuity of `strip_content` / `strip_content_utf8`: valid UTF-8 with multi-byte white-space runes at the line
+edges, which the flattening really removes; and the guard also admits strings that are not valid UTF-8 -/
+example : validUtf8 exUtf8 = true ∧ JoinSafe exUtf8 ∧ stripLineBreaks exUtf8 = [0xC3, 0xA9, 0x78, 0xE2, 0x82, 0xAC] ∧
+    stripLineBreaksSvg exUtf8 = [0xC3, 0xA9, 0x20, 0x78, 0x20, 0xE2, 0x82, 0xAC, 0x20] := by decide
+example : JoinSafe [0xFF, 0x20, 0x0A, 0x09, 0xFE, 0x85] ∧ validUtf8 [0xFF, 0x20, 0x0A, 0x09, 0xFE, 0x85] = false := by decide
 
 /-- non-vacuity / sanity: a multi-line JSON-like payload -/
 example : stripLineBreaks (asc "{\n  \"a\": 1,\r\n\t\"b\": [ 2 ]\n}") = asc "{\"a\": 1,\"b\": [ 2 ]}" := by decide
